@@ -20,6 +20,14 @@ Overlay(base, top) == [k \in 1..Len(base) |-> IF top[k] # 0 THEN top[k] ELSE bas
 ToSet(s)    == {s[x] : x \in 1..Len(s)}
 Chk(name, cond) == IF cond THEN {} ELSE {name}
 
+NoDup(q) == \A x, y \in 1..Len(q) : x # y => q[x] # q[y]
+\* a list of small values as one number (the recorder does the same): <<21, 12>> -> 2112
+RECURSIVE EncSeq(_)
+EncSeq(q) == IF q = <<>> THEN 0 ELSE EncSeq(SubSeq(q, 1, Len(q) - 1)) * 100 + q[Len(q)]
+FirstOcc(q, x) == \A y \in 1..(x - 1) : q[y] # q[x]
+
+RECURSIVE SetToSeq(_)
+SetToSeq(S) == IF S = {} THEN <<>> ELSE LET m == CHOOSE x \in S : \A y \in S : x <= y IN <<m>> \o SetToSeq(S \ {m})
 ArchOf(nk, archs, c) == IF c = 0 THEN EmptyMap(nk) ELSE archs[c]
 WithArch(archs, c, m) == IF c = 0 THEN archs ELSE [archs EXCEPT ![c] = m]
 
@@ -39,6 +47,19 @@ Expected(nk, na, S, e) ==
     [] e.op = "mupdate" -> [same EXCEPT !.mem = [mem EXCEPT ![e.k] = e.v, ![e.k2] = e.v2]]
     [] e.op = "mclear"  -> [same EXCEPT !.mem = EmptyMap(nk)]
     [] e.op = "mget"    -> IF mem[e.k] # 0 THEN same ELSE [same EXCEPT !.exc = "KeyError"]
+    [] e.op \in {"mlen", "mcontains", "mkeys"} -> same
+    [] e.op = "msetdefault" -> IF mem[e.k] # 0 THEN same ELSE [same EXCEPT !.mem = [mem EXCEPT ![e.k] = e.v]]
+    \* popitem removes the item it returns (which one is the dictionary's own business): e.rk is the key it reported
+    [] e.op = "mpopitem" -> IF Dom(mem) = {} THEN [same EXCEPT !.exc = "KeyError"]
+                            ELSE IF e.rk \in Dom(mem) THEN [same EXCEPT !.mem = [mem EXCEPT ![e.rk] = 0]]
+                            ELSE [same EXCEPT !.exc = "reported a key that was not there"]
+    \* cache.popkeys(keys): every key must be there (and be listed once), else KeyError and nothing is removed
+    [] e.op = "mpopkeys" -> IF (\A k \in ks : mem[k] # 0) /\ NoDup(e.keys)
+                            THEN [same EXCEPT !.mem = [k \in 1..nk |-> IF k \in ks THEN 0 ELSE mem[k]]]
+                            ELSE [same EXCEPT !.exc = "KeyError"]
+    [] e.op = "mpopkeysd" -> [same EXCEPT !.mem = [k \in 1..nk |-> IF k \in ks THEN 0 ELSE mem[k]]]
+    [] e.op = "aclear"  -> [same EXCEPT !.archs = [S.archs EXCEPT ![e.x] = EmptyMap(nk)]]
+    [] e.op = "aupdate" -> [same EXCEPT !.archs = [S.archs EXCEPT ![e.x] = [@ EXCEPT ![e.k] = e.v, ![e.k2] = e.v2]]]
     [] e.op = "aset"    -> [same EXCEPT !.archs = [S.archs EXCEPT ![e.x] = [@ EXCEPT ![e.k] = e.v]]]
     [] e.op = "adel"    -> IF S.archs[e.x][e.k] # 0
                            THEN [same EXCEPT !.archs = [S.archs EXCEPT ![e.x] = [@ EXCEPT ![e.k] = 0]]]
@@ -64,16 +85,24 @@ Expected(nk, na, S, e) ==
 
 Value(nk, S, e) ==    \* the value an operation must return (0 = none)
   CASE e.op \in {"mpop", "mget"} -> S.mem[e.k]
+    [] e.op = "mlen" -> Cardinality(Dom(S.mem))
+    [] e.op = "mcontains" -> IF S.mem[e.k] # 0 THEN 1 ELSE 0
+    [] e.op = "mkeys" -> EncSeq(SetToSeq(Dom(S.mem)))
+    [] e.op = "msetdefault" -> IF S.mem[e.k] # 0 THEN S.mem[e.k] ELSE e.v
+    [] e.op = "mpopitem" -> IF e.rk \in Dom(S.mem) THEN S.mem[e.rk] ELSE 0
+    [] e.op = "mpopkeys" -> EncSeq([x \in 1..Len(e.keys) |-> S.mem[e.keys[x]]])
+    [] e.op = "mpopkeysd" -> EncSeq([x \in 1..Len(e.keys) |-> IF S.mem[e.keys[x]] # 0 /\ FirstOcc(e.keys, x) THEN S.mem[e.keys[x]] ELSE 77])
     [] e.op = "archived" -> IF S.cur # 0 THEN 1 ELSE 0
     [] OTHER -> 0
 
 Failed(nk, na, S, e) ==
   LET x == Expected(nk, na, S, e)
-      memop == e.op \in {"mset", "mdel", "mpop", "mupdate", "mclear", "mget"}
+      memop == e.op \in {"mset", "mdel", "mpop", "mupdate", "mclear", "mget", "mlen", "mcontains", "mkeys", "msetdefault",
+                         "mpopitem", "mpopkeys", "mpopkeysd"}
       \* drop() with nothing bound and nothing parked raises ValueError in the code; C08 is silent: both accepted
       \* whether a direct archive mutation reports a missing key is C03's business, not C08's
       lenient == \/ e.op = "drop" /\ S.cur = 0 /\ S.parked = 0 /\ e.exc = "ValueError"
-                 \/ e.op \in {"aset", "adel"}
+                 \/ e.op \in {"aset", "adel", "aclear", "aupdate"}
   IN   Chk("C08.Result", lenient \/ (e.exc = x.exc /\ (x.exc = "none" => e.ret = Value(nk, S, e))))
   \cup Chk("C08.Memory", e.mem = x.mem)
   \cup Chk("C08.Archive", e.archs = x.archs)
